@@ -1,0 +1,20 @@
+//go:build verif
+
+// Contracts (machine-checked specifications) for the executor genesis type, read by /verif's govc.
+// This file contains comments only and compiles to nothing with or without the tag.
+
+package executor
+
+// A valid executor genesis (C17): every listed action identifier is supported and no identifier is
+// listed twice. Validate accepts exactly these.
+//@ macro actIdsOK(g) = forall j int trigger(g.PausedActionIds[j]) :: 0 <= j && j < len(g.PausedActionIds) ==> okAction(g.PausedActionIds[j])
+//@ macro actIdsDistinct(g) = forall i int, j int trigger(g.PausedActionIds[i], g.PausedActionIds[j]) :: 0 <= i && i < j && j < len(g.PausedActionIds) ==> g.PausedActionIds[i] != g.PausedActionIds[j]
+//@ macro execGenesisOK(g) = g != nil && actIdsOK(g) && actIdsDistinct(g)
+
+//@ func (g *GenesisState) Validate() (err)
+//@   loop 0 invariant[C17] forall j int :: 0 <= j && j < idx ==> okAction(g.PausedActionIds[j]) && mapHas(seen, g.PausedActionIds[j])
+//@   loop 0 invariant[C17] forall i int, j int :: 0 <= i && i < j && j < idx ==> g.PausedActionIds[i] != g.PausedActionIds[j]
+//   nothing else is in the set of seen identifiers (completeness pass C17c)
+//@   loop 0 invariant[C17c] forall k int trigger(mapHas(seen, k)) :: (forall j int :: 0 <= j && j < idx ==> g.PausedActionIds[j] != k) ==> !mapHas(seen, k)
+//@   ensures[C17] err == nil ==> execGenesisOK(g)
+//@   ensures[C17c] execGenesisOK(g) ==> err == nil
